@@ -1,5 +1,5 @@
 /* verif_alloc.c -- accounting allocator, linked with
-     -Wl,--wrap=malloc,--wrap=calloc,--wrap=realloc,--wrap=strdup,--wrap=free,--wrap=fopen,--wrap=fclose
+     -Wl,--wrap=malloc,--wrap=calloc,--wrap=realloc,--wrap=strdup,--wrap=free,--wrap=fopen,--wrap=fdopen,--wrap=fclose
    so that every allocation made by the library objects (and the driver) goes
    through it; no change to /repo and no macro tricks are needed.  Accounting and
    failure injection are active only between verif_alloc_begin() and
@@ -16,6 +16,7 @@ void *__real_realloc(void *, size_t);
 char *__real_strdup(const char *);
 void __real_free(void *);
 FILE *__real_fopen(const char *, const char *);
+FILE *__real_fdopen(int, const char *);
 int __real_fclose(FILE *);
 
 #define TAB (1u << 18)
@@ -94,6 +95,15 @@ FILE *__wrap_fopen(const char *path, const char *mode)
 	FILE *f;
 	if (should_fail()) return NULL;
 	f = __real_fopen(path, mode);
+	if (f && active) ++open_files;
+	return f;
+}
+/* lha_arch_fopen obtains its FILE with fdopen */
+FILE *__wrap_fdopen(int fd, const char *mode)
+{
+	FILE *f;
+	if (should_fail()) return NULL;
+	f = __real_fdopen(fd, mode);
 	if (f && active) ++open_files;
 	return f;
 }
